@@ -6,7 +6,7 @@
    assigned on the path taken, signed overflow, bad shift, …) or out of bounds
    (COob) on any admissible input, and that the translator met no variable with
    static storage duration. *)
-Require Import VV.Base VV.CSem VV.TaggedSrcProps.
+Require Import VV.Base VV.Tagged VV.CSem VV.TaggedSrcProps VV.TaggedSrcPropsAdd.
 Require Import VVgen.Src_tagged.
 From Coq Require Import String.
 Local Open Scope Z_scope.
@@ -30,6 +30,14 @@ Theorem C15_src_tagged_defined :
      exists w v, src_varintTaggedGetVarint32 z r = COk (w, v)).
 Proof. exact src_tagged_defined. Qed.
 Print Assumptions C15_src_tagged_defined.
+
+Theorem C15_src_tagged_add_defined : forall p add,
+  bytes_ok p -> -9223372036854775808 <= add <= 9223372036854775807 ->
+  Z.of_N (tagged_getlen p) <= Z.of_nat (List.length p) ->
+  (exists w out, src_varintTaggedAddNoGrow p add = COk (w, out)) /\
+  ((9 <= List.length p)%nat -> exists w out, src_varintTaggedAddGrow p add = COk (w, out)).
+Proof. exact src_tagged_add_defined. Qed.
+Print Assumptions C15_src_tagged_add_defined.
 
 (* checked facts emitted by the translator: the functions above refer to no
    global or static variable, and every function asked for was translated *)
